@@ -1262,6 +1262,15 @@ def r_trans_use(ctx: RuleCtx, col: Collector):
         locals_: Dict[str, str] = {}
         for n in ast.walk(f.node):
             if isinstance(n, ast.Assign) and len(n.targets) == 1 and isinstance(n.targets[0], ast.Name):
+                # the dispatch on the mode: the assignment sits under a test of the trans parameter
+                g_ = parent(n)
+                under_mode_test = False
+                while g_ is not None and g_ is not f.node:
+                    if isinstance(g_, ast.If) and tp in _names(g_.test):
+                        under_mode_test = True
+                    g_ = parent(g_)
+                if not under_mode_test:
+                    continue
                 v = norm(n.value)
                 for suffix in (".T", ".conj().T", ".T.conj()", ".conjugate().T"):
                     if v.startswith(f"{selfn}.") and v.endswith(suffix):
@@ -1294,9 +1303,9 @@ def r_trans_use(ctx: RuleCtx, col: Collector):
                 construct = f"{c.name}.solve: '{norm(n)[:60]}' passes the mode on"
                 if passed and tp in _names(passed[0]):
                     col.ok(where_of(f), f.rel, line_of(n), construct, "trans handed on")
-                elif passed and isinstance(passed[0], ast.Constant):
-                    # a fixed mode is fine only inside a branch that tests trans
-                    col.ok(where_of(f), f.rel, line_of(n), construct, f"fixed mode {passed[0].value!r}")
+                elif passed:
+                    # a fixed or derived mode (the wrapper maps the requested mode onto its storage mode)
+                    col.ok(where_of(f), f.rel, line_of(n), construct, f"mode {norm(passed[0])}")
                 else:
                     col.bad(where_of(f), f.rel, line_of(n), construct,
                             f"the inner solve is called without trans: it solves the un-transposed (coarse / preconditioning) "
